@@ -98,6 +98,15 @@ m("b12_fake_record_draws_reordered", [("src/opaque.rs",
         let server_s_sk = server_setup.keypair.private();
         let server_s_pk = server_s_sk.public_key()?;
 ''')])
+m("b17_over_long_password_refused_at_start", [("src/opaque.rs",
+'''    #[cfg(not(test))]
+    let result = voprf::OprfClient::blind(password, rng)?;
+''','''    if password.len() > usize::from(u16::MAX) {
+        return Err(voprf::Error::Input);
+    }
+    #[cfg(not(test))]
+    let result = voprf::OprfClient::blind(password, rng)?;
+''')])
 def main():
     os.makedirs(OUT, exist_ok=True)
     w=tempfile.mkdtemp(prefix="vmk.")
